@@ -231,7 +231,18 @@ VARIANT_SUMMARIES = {
     _AP + "optional": (1, {"Complete": "Complete", "Incomplete": "Incomplete", "Fail": "Complete", "Abort": "Abort"}),
     _AP + "not": (1, {"Complete": "Fail", "Incomplete": "Incomplete", "Fail": "Complete", "Abort": "Abort"}),
     _AP + "complete": (0, {"Complete": "Complete", "Incomplete": "Fail", "Fail": "Fail", "Abort": "Abort"}),
+    # the `?` operator
+    "<core::result::Result<T, E> as core::ops::try_trait::Try>::branch": (0, {"Ok": "Continue", "Err": "Break"}),
+    "<core::option::Option<T> as core::ops::try_trait::Try>::branch": (0, {"Some": "Continue", "None": "Break"}),
 }
+def must_pass_ps(fn, start, through, exits, init=None):
+    """path-sensitive must-pass: no exit is reachable from `start` once the blocks in `through` are removed"""
+    through = set(through)
+    if start in through:
+        return True
+    return not (reachable_ps(fn, start, removed=through, init=init) & (set(exits) - through))
+
+
 def _switch_sources(fn):
     """locals whose discriminant some switch reads directly (`discriminant(_x)` or through one `&_x`)"""
     out = set()
@@ -293,6 +304,9 @@ def reachable_ps(fn, start, removed=(), init=None, parents=None):
                     src = rv["ops"][0].get("move") or rv["ops"][0].get("copy")
                     if src is not None and not src["p"] and src["l"] in k:
                         k[l] = k[src["l"]]
+                    elif rv["ops"][0].get("ty") == "bool" and rv["ops"][0].get("int") in ("0", "1"):
+                        # a flag set to a constant (`did_indent = true`)
+                        k[l] = "true" if rv["ops"][0]["int"] == "1" else "false"
                     else:
                         k.pop(l, None)
                 elif rv["k"] == "un" and rv.get("op") == "Not":
@@ -318,6 +332,12 @@ def reachable_ps(fn, start, removed=(), init=None, parents=None):
                     bases = refs.get(ap0["l"], ())
                     if len(bases) == 1 and next(iter(bases)) in k:
                         k[t["dest"]["l"]] = "true" if k[next(iter(bases))] == pred else "false"
+            if cn.endswith("::from_residual") and not t["dest"]["p"]:
+                # the result of `?`'s early return is the failure variant of the function's own result type
+                if cn.startswith("<core::result::Result<"):
+                    k[t["dest"]["l"]] = "Err"
+                elif cn.startswith("<core::option::Option<"):
+                    k[t["dest"]["l"]] = "None"
             summ = VARIANT_SUMMARIES.get(t.get("resolved") or t.get("callee"))
             if summ is not None and not t["dest"]["p"] and summ[0] < len(t["args"]):
                 ap = t["args"][summ[0]].get("move") or t["args"][summ[0]].get("copy")
